@@ -4,6 +4,8 @@ import warnings
 
 import numpy as np
 
+SX_ERR = [-999]
+
 RULE = ('random base arrays (1-4 axes, 0-7 elements per axis, element = C-order position, random chunking) behind '
         'da.from_array or a recording DictChunkStore.get_dask_array; 1-3 nested DaskLazyIndexers, each with a random '
         'first-stage index (per axis int / slice with any start,stop,step / boolean mask / sorted, unsorted, repeated, '
@@ -18,10 +20,21 @@ RULE = ('random base arrays (1-4 axes, 0-7 elements per axis, element = C-order 
         'shared or separately created dask arrays), fetched by ONE DaskLazyIndexer.get(...) (with and without out=) and '
         'compared output by output with the model, the spec, numpy and the one-by-one fetch; for contiguous worlds the '
         'get_chunk calls of the joint request are counted per store. A joint case is non-trivial when two indexers '
-        'differ only in the store or share a stored array; distinct by (shape, chunks, indexers, index).')
+        'differ only in the store or share a stored array; distinct by (shape, chunks, indexers, index). '
+        'Fault histories (stream lazy): 1-4 real DaskLazyIndexer objects (65 % nested over an earlier one, parents shared; '
+        '6 % with a malformed keep) with 0-3 instrumented transforms each, over da.from_array or a recording store; 2-6 '
+        'requests through .dataset/.shape/.dtype/len/str/iteration/indexer[k]/get([1-3 objects], k), 55 % of them with 1-2 '
+        'transform calls of the chain of the target raising during that request; the caller overwrites its index arrays '
+        'in 12 % of the gaps; per request the outcome, the delivered value, the transform calls made and the chunks read '
+        'before an element was requested are compared with the atomic, all-or-nothing, cached computation. A history is '
+        'non-trivial when a request after a faulted one exists and some object has >= 2 transforms; distinct by '
+        '(shape, objects, history).')
 ASSUMPTIONS = ['numpy outer indexing (np.take per axis) is the oracle; dask own slicing/take/cull/store are exercised, not modelled',
                'transforms of the correspondence: elementwise 2x+1 -> float64, x[..., 0], elementwise -x -> int32',
                'read sets are compared only for requests whose composed region is non-empty on every axis (F34 otherwise)',
+               'fault histories: a fault is an exception raised by a transform call (transient, per request); requests do '
+               'not overlap in time (thread interleavings of `dataset` are checked by C20); dataset.compute() over a '
+               'zero-length block left by a stepped slice is finding F54 (dask)',
                'joint reads: indexers of one stored array derive from one get_dask_array result or from identical calls '
                '(same dask name); two different index= views of one stored array are separate dask arrays and share nothing']
 
@@ -32,6 +45,7 @@ F23_SIG = 'cull;symptom=raises(Missing dependency)'
 F24_SIG = 'dask_take;empty_array;symptom=raises(range() arg 3 must not be zero)'
 F22_SIG = 'joint;duplicate_indexer;symptom=output_not_written'
 F48_SIG = 'joint;culled_selection;symptom=chunk_read_twice'
+F54_SIG = 'dataset.compute();zero_length_block_after_stepped_slice;symptom=wrong_data'
 
 
 def TR(code):
@@ -1041,6 +1055,405 @@ def run_joint(ctx, cases):
 
 
 # ---------------------------------------------------------------------------------------------
+# `dataset` over histories of accesses with faults: atomic, all-or-nothing, cached
+
+LAZY_KINDS = ['dataset', 'shape', 'dtype', 'getitem', 'getitem', 'get', 'len', 'str', 'iter']
+DT_CODE = {np.dtype('int64'): 0, np.dtype('float64'): 1, np.dtype('int32'): 2}
+
+
+class InjectedFault(Exception):
+    """raised by an instrumented transform when the fault plan of the current request says so"""
+
+
+def gen_lazy_case(rng):
+    nd = rng.randint(1, 3)
+    shape = tuple(rng.randint(1, 5) for _ in range(nd))
+    x = np.arange(int(np.prod(shape))).reshape(shape)
+    objs, dss = [], []          # dss[j] = expected data set (numpy) or None when stage 1 is rejected
+    for j in range(rng.choice([1, 1, 2, 2, 3, 4])):
+        parent = -1
+        if j > 0 and rng.random() < 0.65:
+            parent = rng.randrange(j)
+        base = x if parent < 0 else dss[parent]
+        keep, ds = [], None
+        if base is not None:
+            keep = no_f20(base.shape, [rnd_index(rng, n) for n in base.shape[:rng.randint(0, base.ndim)]])
+            if rng.random() < 0.06:          # malformed first stage: dask_getitem raises at every access
+                keep = keep + [rng.choice([99, -99, ('l', [99])])] if len(keep) < base.ndim else [99] + keep[1:]
+            try:
+                ds = np_oindex(base, keep)
+            except Exception:
+                ds = None
+        trs = []
+        cur = ds
+        for _ in range(rng.choice([0, 1, 2, 2, 3, 3])):
+            code = rng.choice([0, 0, 2, 2, 1])
+            if code == 1 and (cur is None or cur.ndim < 2 or cur.shape[-1] < 1):
+                code = 0
+            trs.append(code)
+            if cur is not None:
+                cur = tr_np(code, cur)
+        objs.append(dict(parent=parent, keep=keep, trs=trs))
+        dss.append(cur)
+
+    def chain(j):
+        out = []
+        while j >= 0:
+            out.append(j)
+            j = objs[j]['parent']
+        return out
+
+    hist = []
+    for _ in range(rng.randint(2, 6)):
+        if rng.random() < 0.12:      # the caller overwrites the index arrays it passed as `keep` (no access)
+            hist.append(dict(kind='mutate', objs=[], plan=[], k2=[]))
+        kind = rng.choice(LAZY_KINDS)
+        if kind == 'get':
+            tg = [rng.randrange(len(objs)) for _ in range(rng.randint(1, 3))]
+        else:
+            tg = [rng.randrange(len(objs))]
+        plan = []
+        if rng.random() < 0.55:
+            cands = [(j, k) for t in tg for j in chain(t) for k in range(len(objs[j]['trs']))]
+            for _ in range(rng.choice([1, 1, 2])):
+                if cands:
+                    plan.append(list(rng.choice(cands)))
+        k2 = []
+        ref = [dss[t] for t in tg]
+        if kind in ('getitem', 'get') and all(r is not None for r in ref) and rng.random() < 0.8:
+            r0 = ref[0]
+            k2 = [rnd_index(rng, n) for n in r0.shape[:rng.randint(0, r0.ndim)]]
+            for r in ref:
+                k2 = no_f20(r.shape, k2) + k2[r.ndim:]
+            try:
+                for r in ref:
+                    np_oindex(r, k2)
+            except Exception:
+                k2 = []
+        hist.append(dict(kind=kind, objs=tg, plan=sorted(plan), k2=k2))
+    return dict(stream='lazy', shape=list(shape), chunks=[list(c) for c in rnd_chunks(rng, shape)], objs=objs, hist=hist,
+                as_array=rng.random() < 0.5, src=rng.choice(['from_array', 'store']))
+
+
+def lazy_accesses(case):
+    return [r for r in case['hist'] if r['kind'] != 'mutate']
+
+
+def lazy_json(case):
+    pl = lambda k: [list(i) if isinstance(i, tuple) else i for i in k]
+    return dict(case, objs=[dict(o, keep=pl(o['keep'])) for o in case['objs']],
+                hist=[dict(r, k2=pl(r['k2'])) for r in case['hist']])
+
+
+def lazy_from_json(d):
+    return dict(d, objs=[dict(o, keep=[from_json(i) for i in o['keep']]) for o in d['objs']],
+                hist=[dict(r, k2=[from_json(i) for i in r['k2']], plan=[list(p) for p in r['plan']]) for r in d['hist']])
+
+
+def wire_lazy(case):
+    return [47, [case['shape'], [[o['parent'], [to_wire(i) for i in o['keep']], list(o['trs'])] for o in case['objs']],
+                 [[list(r['objs']), [list(p) for p in r['plan']]] for r in lazy_accesses(case)]]]
+
+
+def lazy_py_spec(case):
+    """Independent python statement of the atomic, all-or-nothing, cached `dataset`: per request the list of
+    (class, array | None, calls) of the objects accessed in turn (stops at the first that does not return)."""
+    shape = tuple(case['shape'])
+    x = np.arange(int(np.prod(shape))).reshape(shape)
+    cache = {}
+
+    def access(j, plan):
+        if j in cache:
+            return 'ret', cache[j], []
+        o = case['objs'][j]
+        calls = []
+        if o['parent'] < 0:
+            src = x
+        else:
+            cls, src, calls = access(o['parent'], plan)
+            if cls != 'ret':
+                return cls, None, calls
+        try:
+            if len(o['keep']) > src.ndim:
+                raise IndexError('too many indices')
+            cur = np_oindex(src, o['keep'])
+        except Exception:
+            return 'error', None, calls
+        for k, code in enumerate(o['trs']):
+            calls = calls + [[j, k]]
+            if [j, k] in plan:
+                return 'fault', None, calls          # nothing of object j is kept
+            cur = tr_np(code, cur)
+        cache[j] = cur                                # the whole chain, at once
+        return 'ret', cur, calls
+
+    out = []
+    for r in lazy_accesses(case):
+        res = []
+        for j in r['objs']:
+            cls, arr, calls = access(j, [list(p) for p in r['plan']])
+            res.append((cls, arr, calls))
+            if cls != 'ret':
+                break
+        out.append(res)
+    return out
+
+
+def lazy_dec(o):
+    """wire outcome -> (class, (shape, dtype code, values) | None, calls)"""
+    cls = {0: 'error', 1: 'ret', 2: 'none', 3: 'fault'}[o[0]]
+    return cls, ((tuple(o[1]), o[2], o[3]) if o[0] == 1 else None), [list(p) for p in o[-1]]
+
+
+def arr3(a):
+    return (tuple(a.shape), DT_CODE.get(np.dtype(a.dtype), -1), np.asarray(a).astype(np.int64).ravel().tolist())
+
+
+def run_lazy_impl(case):
+    """Real DaskLazyIndexer objects with instrumented transforms; one entry per request:
+    dict(cls=ret|fault|error|none, obs=<what the access delivered>, calls=[[obj, k] ...], exc=str|None)."""
+    import dask
+    import dask.array as da
+    from katdal.lazy_indexer import DaskLazyIndexer
+    shape = tuple(case['shape'])
+    x = np.arange(int(np.prod(shape))).reshape(shape)
+    state = dict(plan=[], calls=[])
+
+    def mk(j, k, code):
+        f = TR(code)
+
+        def transform(a):
+            state['calls'].append([j, k])
+            if [j, k] in state['plan']:
+                raise InjectedFault('transform %d of indexer %d' % (k, j))
+            return f(a)
+        return transform
+
+    out = []
+    from fixtures import recstore
+    with warnings.catch_warnings(), dask.config.set(scheduler='sync'):
+        warnings.simplefilter('ignore')
+        chunks = tuple(tuple(c) for c in case['chunks'])
+        if case.get('src') == 'store':
+            src = recstore.Rec(x=x).get_dask_array('x', chunks, x.dtype)
+        else:
+            src = da.from_array(x, chunks=chunks)
+        recstore.calls.clear()
+        objs, mutable = [], []
+        for j, o in enumerate(case['objs']):
+            parent = src if o['parent'] < 0 else objs[o['parent']]
+            pk = [to_py(i, case['as_array']) for i in o['keep']]
+            mutable += [p for p in pk if isinstance(p, (list, np.ndarray))]
+            objs.append(DaskLazyIndexer(parent, tuple(pk), [mk(j, k, c) for k, c in enumerate(o['trs'])]))
+        for r in case['hist']:
+            if r['kind'] == 'mutate':
+                for p in mutable:
+                    if isinstance(p, np.ndarray):
+                        p[...] = ~p if p.dtype == bool else 0
+                    else:
+                        for q in range(len(p)):
+                            p[q] = (not p[q]) if isinstance(p[q], bool) else 0
+                continue
+            state['plan'] = [list(p) for p in r['plan']]
+            state['calls'] = []
+            recstore.calls.clear()
+            k2 = tuple(to_py(i, case['as_array']) for i in r['k2'])
+            ent = dict(cls='ret', obs=None, exc=None, early=[])
+            try:
+                t = objs[r['objs'][0]]
+                if r['kind'] == 'dataset':
+                    v = t.dataset
+                    ent['early'] = list(recstore.calls)
+                    ent['obs'] = None if v is None else arr3(v.compute())
+                    if v is None:
+                        ent['cls'] = 'none'
+                    else:
+                        # F54: dask computes a blockwise layer wrongly over a zero-length block left by a stepped slice;
+                        # indexer[()] (dask_getitem + da.store on the same data set) is not affected
+                        ent['zero_block'] = any(0 in c and sum(c) > 0 for c in v.chunks)     # a non-empty axis with an empty block
+                        if ent['zero_block']:
+                            ent['via_getitem'] = arr3(t[()])
+                elif r['kind'] == 'iter':
+                    ent['obs'] = [arr3(v) for v in t]
+                elif r['kind'] == 'shape':
+                    ent['obs'] = tuple(t.shape)
+                elif r['kind'] == 'dtype':
+                    ent['obs'] = DT_CODE.get(np.dtype(t.dtype), -1)
+                elif r['kind'] == 'len':
+                    ent['obs'] = len(t)
+                elif r['kind'] == 'str':
+                    ent['obs'] = str(t).split(' -> ')[-1]
+                elif r['kind'] == 'getitem':
+                    ent['obs'] = arr3(t[k2])
+                else:
+                    ent['obs'] = [arr3(v) for v in DaskLazyIndexer.get([objs[j] for j in r['objs']], k2)]
+            except InjectedFault:
+                ent['cls'] = 'fault'
+            except Exception as e:
+                ent['cls'] = 'error'
+                ent['exc'] = '%s:%s' % (type(e).__name__, str(e)[:80])
+            ent['calls'] = list(state['calls'])
+            if r['kind'] in ('shape', 'dtype', 'len', 'str') or ent['cls'] != 'ret':
+                ent['early'] = list(recstore.calls)
+            out.append(ent)
+        recstore.calls.clear()
+    return out
+
+
+def lazy_expected_obs(r, res):
+    """what request r must deliver, given the spec outcomes res = [(cls, array, calls) ...] of its objects."""
+    cls = res[-1][0]
+    if cls != 'ret':
+        return cls, None
+    a = res[0][1]
+    try:
+        if r['kind'] == 'dataset':
+            return 'ret', arr3(a)
+        if r['kind'] == 'shape':
+            return 'ret', tuple(a.shape)
+        if r['kind'] == 'dtype':
+            return 'ret', DT_CODE[np.dtype(a.dtype)]
+        if r['kind'] == 'len':
+            return ('ret', a.shape[0]) if a.ndim else ('error', None)
+        if r['kind'] == 'str':
+            return 'ret', '%s %s' % (tuple(a.shape), a.dtype)
+        if r['kind'] == 'iter':
+            return ('ret', [arr3(a[k]) for k in range(a.shape[0])]) if a.ndim else ('error', None)
+        if r['kind'] == 'getitem':
+            return 'ret', arr3(np_oindex(a, r['k2']))
+        return 'ret', [arr3(np_oindex(b, r['k2'])) for _, b, _ in res]
+    except Exception:
+        return 'error', None
+
+
+def lazy_sig(case, n, r, symptom):
+    before = lazy_accesses(case)[:n]
+    nested = any(case['objs'][j]['parent'] >= 0 for j in r['objs'])
+    faulted_before = any(b['plan'] for b in before)
+    return 'lazy;access=%s;nested=%s;after_faulted_request=%s;fault_now=%s;symptom=%s' % (
+        r['kind'], nested, faulted_before, bool(r['plan']), symptom)
+
+
+def compare_lazy(ctx, case, mo):
+    """mo = wire_47 output [code_ok, model, spec, counter-model(in place)] or None when there is no model binary."""
+    cj = lazy_json(case)
+    pys = lazy_py_spec(case)
+    if mo is not None:
+        model = [[lazy_dec(o) for o in req] for req in mo[1]]
+        spec = [[lazy_dec(o) for o in req] for req in mo[2]]
+        counter = [[lazy_dec(o) for o in req] for req in mo[3]]
+        flat = [[(c, None if a is None else arr3(a), l) for c, a, l in req] for req in pys]
+        if spec != flat:
+            ctx.disagree('lazy;coq_spec_vs_python', cj, flat, None, 'Coq spec z_spec_run differs from the python statement '
+                         'of the atomic cached data set (harness/spec defect)', spec=spec, kind='tie')
+            return
+    impl = run_lazy_impl(case)
+    ctx.traces_validated += 1
+    discr = mo is not None and counter != spec
+    acc = lazy_accesses(case)
+    for n, (r, ent, res) in enumerate(zip(acc, impl, pys)):
+        exp_cls, exp_obs = lazy_expected_obs(r, res)
+        exp_calls = [c for _, _, l in res for c in l]
+        show = dict(request=n, got=dict(cls=ent['cls'], obs=ent['obs'], calls=ent['calls'], exc=ent['exc']),
+                    all_requests=[dict(cls=e['cls'], obs=e['obs'], calls=e['calls']) for e in impl])
+        want = dict(cls=exp_cls, obs=exp_obs, calls=exp_calls)
+        sym = None
+        if ent['cls'] != exp_cls:
+            if ent['cls'] == 'ret':
+                sym = 'data_returned_where_it_must_raise'
+            elif exp_cls == 'ret':
+                sym = 'raises' if ent['cls'] != 'none' else 'returns_None'
+            else:
+                sym = 'raises_%s_instead_of_%s' % (ent['cls'], exp_cls)
+        elif exp_cls == 'ret' and ent['obs'] != exp_obs:
+            # is it what a PREFIX of the transform chain gives?  (half-built data set)
+            sym = 'advertised_shape_dtype' if r['kind'] in ('shape', 'dtype', 'len', 'str') else 'wrong_data'
+            if not r['plan'] and not ent['calls'] and exp_calls:
+                sym = 'half_built_dataset_served'
+        elif ent['calls'] != exp_calls:
+            sym = 'transforms_applied_again' if len(ent['calls']) > len(exp_calls) else 'transform_calls_differ'
+        elif ent['early']:
+            sym = 'not_lazy'
+            want['reads'] = []
+            show['got']['reads'] = ent['early'][:6]
+        if sym is not None:
+            known = None
+            if sym == 'wrong_data' and ent.get('zero_block') and ent.get('via_getitem') == exp_obs:
+                known = F54_SIG
+            elif ent['exc'] and 'Missing dependency' in ent['exc']:
+                known = F23_SIG
+            elif ent['exc'] and 'range() arg 3 must not be zero' in ent['exc']:
+                known = F24_SIG
+            ctx.disagree(known or lazy_sig(case, n, r, sym), cj, show, None if mo is None else mo[1], 'history of accesses to '
+                         'DaskLazyIndexer.dataset (through .%s): request %d differs from the atomic, all-or-nothing, '
+                         'cached computation transforms(array[stage 1]) (%s)' % (r['kind'], n, sym), spec=want)
+            break
+        if mo is not None:
+            mres = model[n]
+            m_cls = mres[-1][0]
+            m_calls = [c for _, _, l in mres for c in l]
+            m_first = mres[0][1]
+            post = res[-1][0] == 'ret' and exp_cls != 'ret'      # the data set was delivered, the accessor then fails (len of 0-d)
+            bad = (ent['cls'] != m_cls and not post) or ent['calls'] != m_calls
+            if not bad and m_cls == 'ret' and r['kind'] == 'dataset' and ent['obs'] != m_first:
+                bad = True
+            if bad:
+                ctx.disagree(lazy_sig(case, n, r, 'tie'), cj, show, mo[1], 'request %d differs from the extracted model of '
+                             'the translated statement skeleton of DaskLazyIndexer.dataset' % n, spec=mo[2], kind='tie')
+                break
+    nfault = sum(1 for r in acc if r['plan'])
+    retry = any(r['plan'] for r in acc[:-1])
+    ctx.note_case(('lazy', tuple(case['shape']), repr(cj['objs']), repr(cj['hist'])),
+                  nontrivial=bool(retry and any(len(o['trs']) >= 2 for o in case['objs'])),
+                  sample=dict(shape=case['shape'], objs=cj['objs'], hist=cj['hist']))
+    ctx.count('lazy:objects=%d' % len(case['objs']))
+    ctx.count('lazy:requests', len(acc))
+    ctx.count('lazy:src=' + case.get('src', 'from_array'))
+    if len(acc) < len(case['hist']):
+        ctx.count('lazy:index_arrays_mutated_between_requests')
+    ctx.count('lazy:faulted_requests', nfault)
+    if any(o['parent'] >= 0 for o in case['objs']):
+        ctx.count('lazy:nested')
+    if len({o['parent'] for o in case['objs'] if o['parent'] >= 0}) < sum(1 for o in case['objs'] if o['parent'] >= 0):
+        ctx.count('lazy:shared_parent')
+    if discr:
+        ctx.count('lazy:history_separates_in_place_build')
+    for r, res in zip(acc, pys):
+        ctx.count('lazy:access=' + r['kind'])
+        ctx.count('lazy:outcome=' + res[-1][0])
+
+
+def run_lazy(ctx, cases):
+    outs = [None] * len(cases)
+    if ctx.model_ok:
+        outs = ctx.model([wire_lazy(c) for c in cases])
+        # when the translator refuses the current tree the pipeline falls back to the last model binary built; use it
+        # for the tie only if it was built from the statement skeleton the tree has now
+        from vh import core
+        from vh.items import c04 as items
+        cur = items.dataset_code(core.REPO)
+        if outs and (cur is None or outs[0] == SX_ERR or outs[0][0] != cur):
+            ctx.extra['lazy_model_binary'] = 'not built from the current DaskLazyIndexer.dataset: spec comparison only'
+            outs = [None] * len(cases)
+    for c, o in zip(cases, outs):
+        compare_lazy(ctx, c, o)
+
+
+# the history the engineers described for seeded change C04-6 (kept as a fixed regression input)
+LAZY_FIXED = [
+    dict(stream='lazy', shape=[2, 3], chunks=[[1, 1], [3]], as_array=True,
+         objs=[dict(parent=-1, keep=[('s', None, None, None), ('l', [0, 2])], trs=[0, 2])],
+         hist=[dict(kind='shape', objs=[0], plan=[[0, 1]], k2=[]), dict(kind='getitem', objs=[0], plan=[], k2=[('s', None, None, None), 0]),
+               dict(kind='dataset', objs=[0], plan=[], k2=[])]),
+    dict(stream='lazy', shape=[4], chunks=[[2, 2]], as_array=False,
+         objs=[dict(parent=-1, keep=[('s', 1, None, None)], trs=[0]), dict(parent=0, keep=[('l', [2, 0])], trs=[2, 0]),
+               dict(parent=0, keep=[], trs=[2])],
+         hist=[dict(kind='dtype', objs=[1], plan=[[0, 0]], k2=[]), dict(kind='dtype', objs=[1], plan=[[1, 1]], k2=[]),
+               dict(kind='get', objs=[2, 1], plan=[[1, 0]], k2=[]), dict(kind='get', objs=[1, 2], plan=[], k2=[])]),
+]
+
+
+# ---------------------------------------------------------------------------------------------
 
 F20_WITNESS = dict(shape=[5], chunks=[[2, 3]], levels=[[[], []]], k2=[['s', -6, 2, -2]], src='from_array',
                    as_array=True, mutate=False, joint=False, f20=True)
@@ -1049,7 +1462,9 @@ F20_WITNESS = dict(shape=[5], chunks=[[2, 3]], levels=[[[], []]], k2=[['s', -6, 
 def run_findings(ctx):
     for f in ctx.findings:
         w = f.get('witness') or {}
-        if w.get('stream') == 'reads':
+        if w.get('stream') == 'lazy':
+            run_lazy(ctx, [lazy_from_json(w)])
+        elif w.get('stream') == 'reads':
             case = dict(w['case'], stages=[[from_json(i) for i in k] for k in w['case']['stages']])
             compare_reads(ctx, case, ctx.model([wire_reads(case)])[0])
         elif 'inds' in w:
@@ -1061,8 +1476,11 @@ def run_findings(ctx):
 
 def run(ctx):
     if not ctx.model_ok:
+        # no model binary at all: the fault histories still have their python statement of the spec
+        run_lazy(ctx, LAZY_FIXED + [gen_lazy_case(ctx.rng) for _ in range(ctx.scale(400, 4000))])
         raise RuntimeError('no model binary: cannot run the correspondence')
     run_findings(ctx)
+    run_lazy(ctx, LAZY_FIXED + [gen_lazy_case(ctx.rng) for _ in range(ctx.scale(400, 4000))])
     stream_slices(ctx)
     stream_range_to_slice(ctx)
     stream_simplify(ctx)
@@ -1150,7 +1568,9 @@ def cross_check_extraction(ctx, cases, rcases, jcases=()):
 
 def replay(ctx, doc):
     case = doc.get('case', {})
-    if 'inds' in case:
+    if case.get('stream') == 'lazy':
+        run_lazy(ctx, [lazy_from_json(case)])
+    elif 'inds' in case:
         run_joint(ctx, [joint_from_json(case)])
     elif 'stages' in case:
         c = dict(case, stages=[[from_json(i) for i in k] for k in case['stages']])
